@@ -41,6 +41,20 @@ PURE_CALLS = {"len", "bool"}
 # N4
 
 
+class _MapToGen(ast.NodeTransformer):
+    """``map(lambda x: E, it)`` -> ``(E for x in it)`` (same elements for every consumer that iterates once)."""
+
+    def visit_Call(self, node):
+        self.generic_visit(node)
+        if isinstance(node.func, ast.Name) and node.func.id == "map" and len(node.args) == 2 and not node.keywords and isinstance(node.args[0], ast.Lambda):
+            lam = node.args[0]
+            a = lam.args
+            if len(a.args) == 1 and not (a.posonlyargs or a.kwonlyargs or a.vararg or a.kwarg or a.defaults):
+                gen = ast.GeneratorExp(elt=lam.body, generators=[ast.comprehension(target=ast.Name(id=a.args[0].arg, ctx=ast.Store()), iter=node.args[1], ifs=[], is_async=0)])
+                return ast.copy_location(gen, node)
+        return node
+
+
 class _Untuple(ast.NodeTransformer):
     def visit_Assign(self, node):
         self.generic_visit(node)
@@ -336,13 +350,82 @@ def inline_helpers(tree: ast.Module, keep: Set[str], rounds: int = 3) -> bool:
                     walk_block(hd.body, caller, cls)
                 i += 1
 
+        def straightline(h) -> bool:
+            body = [x for x in h.body if not (isinstance(x, ast.Expr) and isinstance(x.value, ast.Constant))]
+            if not body or not isinstance(body[-1], ast.Return) or body[-1].value is None:
+                return False
+            for x in body[:-1]:
+                if not ((isinstance(x, ast.Assign) and len(x.targets) == 1 and isinstance(x.targets[0], ast.Name)) or (isinstance(x, ast.AnnAssign) and isinstance(x.target, ast.Name) and x.value is not None)):
+                    return False
+            return not any(isinstance(y, (ast.Await, ast.Yield, ast.YieldFrom)) for x in body for y in ast.walk(x))
+
+        def hoist_block(stmts: List[ast.stmt], caller, cls) -> None:
+            """calls of straight-line single-use helpers inside an `if` test or inside the expression of a simple
+            statement: the helper's assignments are placed before the statement, the call becomes its return expression"""
+            nonlocal changed
+            i = 0
+            while i < len(stmts):
+                s = stmts[i]
+                if isinstance(s, FuncNode + (ast.ClassDef,)):
+                    i += 1
+                    continue
+                exprs = []
+                if isinstance(s, ast.If):
+                    exprs = [s.test]
+                elif isinstance(s, (ast.Assign, ast.AnnAssign, ast.Expr, ast.Return, ast.AugAssign)) and getattr(s, "value", None) is not None:
+                    exprs = [s.value]
+                done = False
+                for e in exprs:
+                    for c in [x for x in ast.walk(e) if isinstance(x, ast.Call)]:
+                        r = resolve(c, cls)
+                        if r is None:
+                            continue
+                        h, is_method = r
+                        if isinstance(h, ast.AsyncFunctionDef) or not straightline(h) or not eligible(h, h.name, caller, False):
+                            continue
+                        uid[0] += 1
+                        holder = ast.Assign(targets=[ast.Name(id="_h%d_value" % uid[0], ctx=ast.Store())], value=c)
+                        ast.copy_location(holder, s)
+                        body = _inline_body(h, c, "assign", holder, uid[0], is_method)
+                        if body is None or not isinstance(body[-1], ast.Assign):
+                            continue
+                        ret_expr = body[-1].value
+                        pre = body[:-1]
+
+                        class Rep(ast.NodeTransformer):
+                            def visit_Call(self, node, c=c, ret_expr=ret_expr):
+                                if node is c:
+                                    return ret_expr
+                                return self.generic_visit(node)
+
+                        if isinstance(s, ast.If):
+                            s.test = Rep().visit(s.test)
+                        else:
+                            s.value = Rep().visit(s.value)
+                        stmts[i:i] = pre
+                        i += len(pre)
+                        changed = True
+                        done = True
+                        break
+                    if done:
+                        break
+                for fld in ("body", "orelse", "finalbody"):
+                    sub = getattr(s, fld, None)
+                    if isinstance(sub, list) and sub and isinstance(sub[0], ast.stmt):
+                        hoist_block(sub, caller, cls)
+                for hd in getattr(s, "handlers", []) or []:
+                    hoist_block(hd.body, caller, cls)
+                i += 1
+
         for st in tree.body:
             if isinstance(st, FuncNode):
                 walk_block(st.body, st, None)
+                hoist_block(st.body, st, None)
             elif isinstance(st, ast.ClassDef):
                 for s2 in st.body:
                     if isinstance(s2, FuncNode):
                         walk_block(s2.body, s2, st.name)
+                        hoist_block(s2.body, s2, st.name)
         changed_any = changed_any or changed
         if not changed:
             break
@@ -497,6 +580,8 @@ def _remove_stmt(root, target) -> bool:
 def normalize_tree(tree: ast.Module, keep: Iterable[str] = (), substitute_rounds: int = 12) -> ast.Module:
     tree = copy.deepcopy(tree)
     tree = _Untuple().visit(tree)
+    tree = _MapToGen().visit(tree)
+    ast.fix_missing_locations(tree)
     inline_helpers(tree, set(keep))
     for st in tree.body:
         fns = []
